@@ -71,7 +71,8 @@ def build(clean=False):
         regen()
         if clean:
             sh("make clean >/dev/null 2>&1; rm -f Makefile Makefile.conf", cwd=COQ)
-        if not os.path.exists(os.path.join(COQ, "Makefile")):
+        mk, cp = os.path.join(COQ, "Makefile"), os.path.join(COQ, "_CoqProject")
+        if not os.path.exists(mk) or os.path.getmtime(mk) < os.path.getmtime(cp):
             rc, out = sh("coq_makefile -f _CoqProject -o Makefile", cwd=COQ)
             if rc != 0:
                 raise BuildError("coq_makefile", out)
